@@ -115,6 +115,9 @@ typedef struct vnaproperty_yaml {
 extern int _vnaproperty_yaml_import(vnaproperty_yaml_t *vymlp,
 	vnaproperty_t **rootptr, void *yaml_node);
 
+/* _vnaproperty_free: free a property tree (never allocates, cannot fail) */
+extern void _vnaproperty_free(vnaproperty_t **rootptr);
+
 /* _vnaproperty_yaml_export: export properties to a YAML document */
 extern int _vnaproperty_yaml_export(vnaproperty_yaml_t *vymlp,
 	const vnaproperty_t *root);
